@@ -11,14 +11,13 @@ USES_FACTS = False
 DRIVER = "shootmodel_enum"
 
 MANIFEST = dict(
-    text="Lean 4 theorems over a model of internal/enumer (stringer-style constant collection, sort by the unsigned 64-bit key, "
+    text="Lean 4 theorems over a model of internal/enumer (stringer-style constant collection, sort by the signed / unsigned value per kind, "
          "TrimPrefix, the emitted tables and String/IsValid/Values/Strings/ValueMap/StringMap, the `x[Name-value]` stale guard): for every "
-         "declaration of the grammar with distinct non-negative values below 2^63 and distinct trimmed names the collected set is the "
+         "declaration of the grammar with distinct values (negative ones and values above MaxInt64 included) and distinct trimmed names the collected set is the "
          "declared set, the tables are ascending and index-aligned, the two maps are inverse, IsValid holds exactly on declared values and "
          "String is the trimmed name / the decimal form for EVERY integer, and the guard compiles iff no constant changed. The model is tied "
          "to the code by generating enums from the grammar, running the rebuilt `shoot enum`, compiling the output and executing all six "
-         "methods over a window of values, plus edited-constant legs that must stop compiling. Negative values and values above MaxInt64 "
-         "are finding regions (the run fails).",
+         "methods over a window of values, plus edited-constant legs that must stop compiling.",
     note="Lean kernel + standard axioms; go/types constant values and fmt %d are inputs/symbolic; int/uint are 64 bit.",
     technique="Lean 4 proof (induction over the const specs / insertion sort / association lists) + differential correspondence on generated enums",
     design="5/C04")
@@ -26,7 +25,7 @@ MANIFEST = dict(
 SHAPED = (["kind:" + k for k in enumgen.KIND_NAMES] +
           ["iota", "offset", "shift", "explicit", "multi", "lin", "hex", "carried", "placeholder", "multi-block", "multi-file",
            "prefixed", "unprefixed", "accidental-prefix", "distractor"])
-REGION_SHAPES = ["neg"] * 4 + ["big"] * 2 + ["dupval"] * 3 + ["dupname"] * 3 + ["typedexpr"] * 2 + ["empty"]
+REGION_SHAPES = ["neg"] * 6 + ["big"] * 4 + ["dupval"] * 3 + ["dupname"] * 3 + ["typedexpr"] * 2 + ["empty"]
 
 
 def stale_variants(ctx, en, decl):
@@ -37,8 +36,8 @@ def stale_variants(ctx, en, decl):
     vs = set(v for _, v in decl)
     # one constant gets a fresh value
     j = rng.randrange(len(decl))
-    cands = [v for v in [decl[j][1] + 1, decl[j][1] - 1, max(vs) + 1, max(vs) + 7, min(vs) - 1, rng.randint(0, min(hi, 10 ** 6))]
-             if 0 <= v <= min(hi, enumgen.MAXI64) and v not in vs]
+    cands = [v for v in [decl[j][1] + 1, decl[j][1] - 1, max(vs) + 1, max(vs) + 7, min(vs) - 1, rng.randint(max(lo, -10 ** 6), min(hi, 10 ** 6))]
+             if lo <= v <= hi and v not in vs]
     if cands:
         nv = rng.choice(cands)
         cur = [(n, nv if i == j else v) for i, (n, v) in enumerate(decl)]
@@ -71,7 +70,7 @@ def stale_variants(ctx, en, decl):
         else:
             continue
         cl, cur = enumgen.classify(e2)
-        if cl == "wf" and [n for n, _ in cur] == [n for n, _ in decl] and cur != decl:
+        if cl in ("wf", "neg", "big") and [n for n, _ in cur] == [n for n, _ in decl] and cur != decl:
             out.append(("src", enumgen.render_files(e2), cur))
             break
     return out
@@ -81,7 +80,7 @@ def make_case(ctx, cid, en, batch=None):
     T = en["T"]
     cl, decl = enumgen.classify(en)
     win = enumgen.window(en["kind"], [v for _, v in decl]) if decl else [0, 1]
-    variants = stale_variants(ctx, en, decl) if cl == "wf" else []
+    variants = stale_variants(ctx, en, decl) if cl in ("wf", "neg", "big") else []
     extra = [["win"] + [str(v) for v in win],
              ["stale"] + [[lbl] + [[Q(n), str(v)] for n, v in cur] for lbl, _, cur in variants]]
     case = {"id": cid, "en": en, "decl": decl, "files": enumgen.render_files(en),
@@ -155,7 +154,7 @@ def gen_cases(ctx):
     n = ctx.n(150, 2000) + len(enumgen.load_corpus(PROP))
     while len(ens) < n:
         r = ctx.rng.random()
-        sh = "wf" if r < 0.9 else ctx.rng.choice(["neg", "big", "dupval", "dupname", "typedexpr"])
+        sh = "wf" if r < 0.8 else ctx.rng.choice(["neg", "neg", "big", "big", "dupval", "dupname", "typedexpr"])
         ens.append(g.enum(sh, ctx.rng.choice(SHAPED) if ctx.rng.random() < 0.3 and sh == "wf" else None))
     nex = 0
     if not ctx.quick():
@@ -205,8 +204,6 @@ def run_cases(ctx, cases, name="mod"):
 
 
 def sig(c, region, dk, im, m):
-    if region.startswith("F_") and im.get("exit") == "1":
-        return region + ":exit=1"
     kinds = sorted(set(k.split(":")[0] for k in dk))
     return "%s:%s" % (region, ",".join(kinds))
 
